@@ -754,6 +754,7 @@ class History(System):
         S = st.s; tot = st.tot
         t = fixtures.tmo()
         before_all = [full_digest(s) for s in S]
+        changed0 = False
         def k(i): return cls(S[i], st.pk[i])
         try:
             if op == 'mix':
@@ -790,7 +791,44 @@ class History(System):
                 multi_dst = isinstance(S[d], t.MultiStream)
                 kk = ... if key == '...' else key
                 wc = '7732-18-5'
-                if ph is not None:
+                if multi_dst and isinstance(S[s_], t.MultiStream) and st.pk[d] == st.pk[s_]:
+                    # multi-phase -> multi-phase: rows are addressed by phase LABEL; what is moved arrives in the row of the same
+                    # label and leaves the source, every other source entry stays, nothing is removed that did not arrive
+                    sd = fixtures.dense(S[s_]); sc_ = cas(st.pk[s_]); dc_ = cas(st.pk[d])
+                    low = lambda q: q.lower()
+                    dphs = {low(q) for q in S[d].phases}; sphs = {low(q) for q in S[s_].phases}
+                    rows = list(sd) if ph is None else [q for q in sd if q == ph]
+                    match['phase'] = '...' if ph is None else ('src' if rows else 'other')
+                    match['phase_sets'] = 'same' if tuple(S[d].phases) == tuple(S[s_].phases) else 'differ'
+                    try:
+                        S[d].copy_flow(S[s_], ... if ph is None else ph, kk, remove=True)
+                    except Exception as e:
+                        absent = (ph is not None and (low(ph) not in sphs or low(ph) not in dphs)) or (ph is None and not sphs <= dphs)
+                        if type(e).__name__ == 'UndefinedPhase' and absent and [full_digest(x) for x in S] == before_all:
+                            raise Rejected('copy_flow:phase-absent', cut=False)
+                        raise
+                    sa = fixtures.dense(S[s_]); da = fixtures.dense(S[d])
+                    chems = set(sc_) if key == '...' else {wc}
+                    for q, v in sd.items():
+                        for j, x in enumerate(v):
+                            c_ = sc_[j]
+                            if q in rows and c_ in chems:
+                                changed0 = changed0 or x > 0
+                                got_row = da[q][dc_.index(c_)] if q in da else None
+                                if got_row != x and not (got_row is None and x == 0):
+                                    raise Violation('copy-total', f'{a!r}: {x!r} of {c_} was to be moved from phase {q} of the source; phase {q} of the destination holds '
+                                                    f'{got_row!r} (destination phases {S[d].phases!r}, source phases {S[s_].phases!r})', match=dict(match, side='dst'))
+                                if sa[q][j] != 0.:
+                                    raise Violation('copy-total', f'{a!r}: moved entry ({q}, {c_}) still holds {sa[q][j]!r} in the source', match=dict(match, side='src-kept'))
+                            elif sa[q][j] != x:
+                                raise Violation('copy-total', f'{a!r}: source entry ({q}, {c_}) went from {x!r} to {sa[q][j]!r} although phase {q} / that chemical was not '
+                                                f'addressed (destination phases {S[d].phases!r}, source phases {S[s_].phases!r}): material '
+                                                f'{"lost" if q not in da or da[q][dc_.index(c_)] != x else "moved under another label"}', match=dict(match, side='src-lost'))
+                    new = {}
+                    for i_ in (d, s_):
+                        tot[i_] = totals(S[i_]); before_all[i_] = full_digest(S[i_])
+                    ph = 'done'
+                elif ph is not None:
                     sd = fixtures.dense(S[s_])
                     amount = float(sd[ph][cas(st.pk[s_]).index(wc)]) if ph in sd else 0.
                     match['phase'] = 'src' if ph in sd else 'other'
@@ -837,7 +875,7 @@ class History(System):
             raise Violation('unexpected-exception', f'{a!r} raised {en}: {e}', match=dict(match, exc=en, where=where(e)),
                             detail=dict(cacheA=len(th('A').chemicals._index_cache), cacheB=len(th('B').chemicals._index_cache)))
         partial = new.pop('partial_dst', None)
-        changed = False
+        changed = changed0
         for i in range(3):
             got = totals(S[i])
             if i in new:
